@@ -201,3 +201,49 @@ def canon_test_text(e):
                 return _ast.copy_location(_ast.Compare(left=n.comparators[0], ops=[FL[type(n.ops[0])]()], comparators=[n.left]), n)
             return n
     return _norm(_ast.fix_missing_locations(T().visit(_copy.deepcopy(e)))).replace(' ', '')
+
+
+def nan_initialised(fnode, name):
+    """the local array `name` of the function holds NaN everywhere before it is first written cell by cell: allocated by
+    `np.full(shape, nan)` / `np.full_like(x, nan)`, or allocated any way and, as the very next statement that mentions it
+    (same block), filled as a whole: `name.fill(nan)`, `name[:] = nan`, `name[...] = nan`, `name[:, :] = nan`."""
+    def walk_blocks(stmts):
+        yield stmts
+        for s in stmts:
+            for fld in ('body', 'orelse', 'finalbody'):
+                sub = getattr(s, fld, None)
+                if isinstance(sub, list) and sub and isinstance(sub[0], ast.stmt) and not isinstance(s, (ast.FunctionDef, ast.Lambda)):
+                    yield from walk_blocks(sub)
+    found = False
+    for block in walk_blocks(fnode.body):
+        for i, s in enumerate(block):
+            if not (isinstance(s, ast.Assign) and len(s.targets) == 1 and isinstance(s.targets[0], ast.Name) and s.targets[0].id == name and
+                    isinstance(s.value, ast.Call)):
+                continue
+            v = s.value
+            sh = short(v)
+            if sh in ('full', 'full_like'):
+                fv = v.args[1] if len(v.args) >= 2 else next((k.value for k in v.keywords if k.arg == 'fill_value'), None)
+                if fv is not None and is_nan_expr(fv):
+                    found = True
+                    continue
+                return False
+            if sh not in ('empty', 'zeros', 'ones', 'empty_like', 'zeros_like', 'ones_like'):
+                continue        # not an allocation (a reshape of itself, another kind of result on another branch)
+            nxt = next((t for t in block[i + 1:] if any(isinstance(n, ast.Name) and n.id == name for n in ast.walk(t))), None)
+            ok = False
+            if isinstance(nxt, ast.Expr) and isinstance(nxt.value, ast.Call) and isinstance(nxt.value.func, ast.Attribute) and \
+                    nxt.value.func.attr == 'fill' and isinstance(nxt.value.func.value, ast.Name) and nxt.value.func.value.id == name and \
+                    len(nxt.value.args) == 1 and is_nan_expr(nxt.value.args[0]):
+                ok = True
+            if isinstance(nxt, ast.Assign) and len(nxt.targets) == 1 and isinstance(nxt.targets[0], ast.Subscript) and \
+                    isinstance(nxt.targets[0].value, ast.Name) and nxt.targets[0].value.id == name and is_nan_expr(nxt.value):
+                sl = nxt.targets[0].slice
+                parts = sl.elts if isinstance(sl, ast.Tuple) else [sl]
+                ok = all((isinstance(x, ast.Slice) and x.lower is None and x.upper is None and x.step is None) or
+                         (isinstance(x, ast.Constant) and x.value is Ellipsis) for x in parts)
+            if not ok:
+                return False
+            found = True
+    return found
+
